@@ -1033,6 +1033,15 @@ pub fn run(cx: &mut Ctx, _replay: Option<&str>) {
             }
         }
     }
+    // … and the decoder + re-encoder on every code byte: a datagram is forwarded unchanged whatever its
+    // code says about payloads (only 0.00 may lose one); with options, with and without payload
+    for b in 0..=255u8 {
+        for pl in [0usize, 1, 3] {
+            for opts in [vec![], vec![(11u16, b"a".to_vec()), (12, vec![0])]] {
+                case_dec(cx, &rfc_wire(0x41, b, 0x1000 | b as u16, &[7], &opts, &vec![0xB0 | pl as u8; pl]));
+            }
+        }
+    }
     for c in [CodeSpec::UnkReq, CodeSpec::UnkResp] {
         let spec = PktSpec { vtt: 0x40, code: c, mid: 1, tok: vec![], opts: vec![], payload: vec![1] };
         case_enc(cx, &spec, Some(None));
